@@ -249,11 +249,32 @@ func (x *instloopX) body(stmts []ast.Stmt, nested bool) []string {
 			// v, ok := i.provider.Acquire()  followed by  if !ok { return <non-nil> }
 			if len(v.Lhs) == 2 && len(v.Rhs) == 1 && v.Tok == token.DEFINE && x.src(v.Rhs[0]) == x.recv+".provider.Acquire()" && k+1 < len(stmts) {
 				okName := x.src(v.Lhs[1])
-				if ifs, isIf := stmts[k+1].(*ast.IfStmt); isIf && ifs.Init == nil && ifs.Else == nil && x.src(ifs.Cond) == "!"+okName &&
+				if ifs, isIf := stmts[k+1].(*ast.IfStmt); isIf && ifs.Init == nil && ifs.Else == nil &&
 					x.isReturnOf(ifs.Body, func(r string) bool { return r != "nil" }) {
-					out = append(out, ".acquireOrReturn "+instloopStr(x.src(v.Lhs[0])))
-					k++
-					continue
+					// the condition: a disjunction with `!ok` (also written `ok == false`) exactly once; every other disjunct is a
+					// test on the VALUE of the item: `v == nil` -> "nil", anything else -> its source (a test the model does not know)
+					notOk, tests := 0, []string{}
+					vName := x.src(v.Lhs[0])
+					for _, d := range instloopDisjuncts(ifs.Cond) {
+						switch c := x.src(d); c {
+						case "!" + okName, okName + " == false", "false == " + okName, "!(" + okName + ")":
+							notOk++
+						case vName + " == nil", "nil == " + vName:
+							tests = append(tests, instloopStr("nil"))
+						default:
+							tests = append(tests, instloopStr(c))
+						}
+					}
+					if notOk == 1 && len(tests) == 0 {
+						out = append(out, ".acquireOrReturn "+instloopStr(vName))
+						k++
+						continue
+					}
+					if notOk == 1 {
+						out = append(out, ".acquireOrReturnIf "+instloopStr(vName)+" ["+strings.Join(tests, ", ")+"] false")
+						k++
+						continue
+					}
 				}
 			}
 			other(s)
@@ -342,6 +363,45 @@ func (x *instloopX) body(stmts []ast.Stmt, nested bool) []string {
 	return out
 }
 
+// instloopDisjuncts: the operands of a (possibly nested, parenthesised) `||`.
+func instloopDisjuncts(e ast.Expr) []ast.Expr {
+	switch v := e.(type) {
+	case *ast.ParenExpr:
+		return instloopDisjuncts(v.X)
+	case *ast.BinaryExpr:
+		if v.Op == token.LOR {
+			return append(instloopDisjuncts(v.X), instloopDisjuncts(v.Y)...)
+		}
+	}
+	return []ast.Expr{e}
+}
+
+// instloopIterHelper recognises `err := RECV.m(args…)` where m is a method of `instance` declared in the package (the
+// iteration extracted into a helper) and returns the helper.
+func instloopIterHelper(p *packages.Package, s ast.Stmt) (*ast.FuncDecl, string, bool) {
+	as, ok := s.(*ast.AssignStmt)
+	if !ok || len(as.Lhs) != 1 || len(as.Rhs) != 1 || as.Tok != token.DEFINE {
+		return nil, "", false
+	}
+	call, ok := as.Rhs[0].(*ast.CallExpr)
+	if !ok {
+		return nil, "", false
+	}
+	se, ok := call.Fun.(*ast.SelectorExpr)
+	if !ok {
+		return nil, "", false
+	}
+	if _, isIdent := se.X.(*ast.Ident); !isIdent {
+		return nil, "", false
+	}
+	fd := instloopFindMethod(p, "instance", se.Sel.Name)
+	id, isId := as.Lhs[0].(*ast.Ident)
+	if fd == nil || fd.Body == nil || !isId || fd.Type.Results.NumFields() != 1 || len(fd.Recv.List[0].Names) != 1 {
+		return nil, "", false
+	}
+	return fd, id.Name, true
+}
+
 // instloopIterFunc recognises `err := func() error { BODY }()` and returns BODY.
 func instloopIterFunc(s ast.Stmt) (*ast.BlockStmt, string, bool) {
 	as, ok := s.(*ast.AssignStmt)
@@ -378,6 +438,7 @@ func instloopExtra(t *tr) string {
 
 	// ---- (*instance).Run
 	var iterBody *ast.BlockStmt
+	iterRecv := ""
 	if fd := instloopFindMethod(en, "instance", "Run"); fd != nil && len(fd.Recv.List[0].Names) == 1 {
 		x.recv = fd.Recv.List[0].Names[0].Name
 		var skel []string
@@ -402,6 +463,13 @@ func instloopExtra(t *tr) string {
 							skel = append(skel, instloopStr("for "+x.src(v.Cond)+" { "+errName+" := <iteration>(); "+x.src(l[1])+" }"))
 							continue
 						}
+						// the iteration extracted into a method of the instance: its body is read with ITS receiver name
+						if hfd, errName, ok := instloopIterHelper(en, l[0]); ok && iterBody == nil {
+							iterBody = hfd.Body
+							iterRecv = hfd.Recv.List[0].Names[0].Name
+							skel = append(skel, instloopStr("for "+x.src(v.Cond)+" { "+errName+" := <iteration>(); "+x.src(l[1])+" }"))
+							continue
+						}
 					}
 				}
 				skel = append(skel, instloopStr(x.src(s)))
@@ -413,7 +481,12 @@ func instloopExtra(t *tr) string {
 		b.WriteString("def runSkeleton : List String := " + instloopList(skel, "  ") + "\n\n")
 		if iterBody != nil {
 			b.WriteString("/-- regenerated from `(*instance).Run`: the body of the iteration function, in source order -/\n")
+			runRecv := x.recv
+			if iterRecv != "" {
+				x.recv = iterRecv
+			}
 			b.WriteString("def iterBody : List Instr := " + instloopList(x.body(iterBody.List, false), "  ") + "\n\n")
+			x.recv = runRecv
 		} else {
 			t.errs = append(t.errs, "(*instance).Run: loop `for COND { err := func() error {...}(); if err != nil { return err } }` not found")
 			b.WriteString("def iterBody : List Instr := [.other \"iteration function not found\"]\n\n")
@@ -518,6 +591,34 @@ func instloopExtra(t *tr) string {
 	if fd := instloopFindMethod(cu, "Waiter", "IsFinished"); fd != nil && len(fd.Recv.List[0].Names) == 1 {
 		cx.recv = fd.Recv.List[0].Names[0].Name
 		ok := false
+		// shape 2: `if ctx.Err() != nil { return A }; [x := w.sched.Left();] return (x | w.sched.Left()) OP lit`
+		if n := len(fd.Body.List); n == 2 || n == 3 {
+			if ifs, isIf := fd.Body.List[0].(*ast.IfStmt); isIf && ifs.Init == nil && ifs.Else == nil && len(ifs.Body.List) == 1 &&
+				(cx.src(ifs.Cond) == "ctx.Err() != nil" || cx.src(ifs.Cond) == "nil != ctx.Err()") {
+				r0, isR0 := ifs.Body.List[0].(*ast.ReturnStmt)
+				r1, isR1 := fd.Body.List[n-1].(*ast.ReturnStmt)
+				leftName := cx.recv + ".sched.Left()"
+				if n == 3 {
+					leftName = ""
+					if as, isAs := fd.Body.List[1].(*ast.AssignStmt); isAs && as.Tok == token.DEFINE && len(as.Lhs) == 1 && len(as.Rhs) == 1 &&
+						cx.src(as.Rhs[0]) == cx.recv+".sched.Left()" {
+						leftName = cx.src(as.Lhs[0])
+					}
+				}
+				if isR0 && isR1 && leftName != "" && len(r0.Results) == 1 && len(r1.Results) == 1 {
+					if be, isBin := r1.Results[0].(*ast.BinaryExpr); isBin && cx.src(be.X) == leftName {
+						if lit, isLit := be.Y.(*ast.BasicLit); isLit && lit.Kind == token.INT {
+							op := map[token.Token]string{token.EQL: "=", token.LEQ: "≤", token.LSS: "<", token.GEQ: "≥", token.GTR: ">", token.NEQ: "≠"}[be.Op]
+							if op != "" {
+								ok = true
+								b.WriteString("/-- regenerated from `core/coreutil/waiter.go` method `(*Waiter).IsFinished` (`left` = `sched.Left()`) -/\n")
+								b.WriteString("def isFinished (ctxDone : Bool) (left : Int) : Bool :=\n  if ctxDone then " + cx.src(r0.Results[0]) + " else decide (left " + op + " (" + lit.Value + " : Int))\n\n")
+							}
+						}
+					}
+				}
+			}
+		}
 		if len(fd.Body.List) == 1 {
 			if sel, isSel := fd.Body.List[0].(*ast.SelectStmt); isSel && len(sel.Body.List) == 2 {
 				c0 := sel.Body.List[0].(*ast.CommClause)
@@ -635,6 +736,8 @@ func instloopExtra(t *tr) string {
 	b.WriteString(instloopStart(t, en))
 	// ---- schedule: the composite profile at the granularity of its lock sections (area_instloop_comp.go)
 	b.WriteString(instloopComp(t, sp))
+	// ---- round 6: the wiring of the instances' dependencies, the out-of-ammo sentinel, Counter, discarded sample, Dummy (area_instloop_r6.go)
+	b.WriteString(instloopR6(t, en))
 	return b.String()
 }
 
